@@ -43,6 +43,23 @@ PROMPTS = ['user@h:~$ ', '# ', '% ', '> ', '[u@h ~]$ ']
 STEP_ALPHA = [['hostkey'], ['password', True], ['password', False], ['passphrase', True], ['denied'], ['terminal'],
               ['banner', 'Cost: 5$ per hour\n'], ['banner', 'Your password: expires soon\n'], ['closed'], ['silence', 3.5],
               ['exit', 0], ['shell', 'sh', 'user@h:~$ '], ['shell', 'csh', '% '], ['shell', 'zsh', 'h# ']]
+# deterministic minimum cases (both tiers): (steps, option overrides)
+FIXED = [
+    ([['password', False], ['password', True], ['shell', 'sh', 'user@h:~$ ']], {}),        # a second password prompt
+    ([['password', False], ['password', False], ['denied']], {}),
+    ([['hostkey'], ['hostkey'], ['shell', 'sh', '$ ']], {}),                               # the host-key question twice
+    ([['terminal'], ['hostkey'], ['password', True], ['shell', 'sh', '$ ']], {}),
+    ([['password', True], ['shell', 'weird', 'user@h:~$ ']], {}),                           # no prompt-setting command works
+    ([['shell', 'weird', '> ']], {'sync_original_prompt': False}),
+    ([['denied']], {'auto_prompt_reset': False, 'sync_original_prompt': False}),            # refusal, nothing prompt-like
+    ([['password', True], ['denied']], {'auto_prompt_reset': False, 'sync_original_prompt': False}),
+    ([['closed']], {'auto_prompt_reset': False, 'sync_original_prompt': False}),
+    ([['password', True], ['mute', 6]], {'auto_prompt_reset': False}),                      # silent and no echo: sync must fail
+    ([['mute', 6]], {'auto_prompt_reset': False}),
+    ([['password', True], ['banner', 'Welcome\n'], ['shell', 'sh', 'user@h:~$ ']], {'auto_prompt_reset': False}),
+    ([['hostkey'], ['passphrase', True], ['shell', 'csh', '% ']], {}),
+    ([['password', True], ['terminal'], ['shell', 'zsh', 'h# ']], {}),
+]
 
 
 def gen_case(rng):
@@ -111,7 +128,7 @@ def one(case, acc):
         except BaseException as e:
             exc = e
         dt = time.time() - t0
-        tr = read_transcript(tp)
+        tr = read_transcript(tp)      # what the fake had recorded when login() came back
         desc = 'dialogue %s options %s: login() %s after %.1f s' % (
             json.dumps(case['steps']), {k: v for k, v in o.items() if v not in (None, False) or k == 'auto_prompt_reset'},
             ('returned %r' % (ret,)) if exc is None else 'raised %s(%s)' % (type(exc).__name__, str(exc)[:80]), dt)
@@ -149,8 +166,23 @@ def one(case, acc):
         elif ret is True:
             acc.count('logins_true')
             if not shell:
-                return v('true-without-shell-prompt' + ('-reset-disabled' if not o['auto_prompt_reset'] else ''),
-                         'the dialogue never reached a shell prompt')
+                outtext = ''.join(e[2] for e in tr if e[1] == 'out')
+                refused = re.search(r'(?i)permission denied|connection closed', outtext) is not None
+                muted = any(e[1] == 'muted' for e in tr)
+                promptlike = re.search(r'[#$]', outtext) is not None
+                # classifier of the recorded finding: reset disabled, and the dialogue offered something that the
+                # optimistic prompt detection can take for a prompt ([#$] in the output, or silence with tty echo);
+                # a True after an explicit refusal without anything prompt-like, or from a server that is silent
+                # AND does not echo, is something else
+                mech = 'true-without-shell-prompt'
+                if not o['auto_prompt_reset']:
+                    if promptlike or not (refused or muted):
+                        mech += '-reset-disabled'
+                    elif refused:
+                        mech += '-after-refusal'
+                    else:
+                        mech += '-silent-no-echo'
+                return v(mech, 'the dialogue never reached a shell prompt')
             if o['auto_prompt_reset'] and not pset:
                 return v('true-without-unique-prompt-set', 'the shell never accepted a prompt-setting command')
             # prompt() must delimit each command's output exactly
@@ -216,6 +248,10 @@ def plan(tier, seed):
             if d == 3 and (zlib.crc32(json.dumps(seq).encode()) + seed) % 6:
                 continue
             cases.append({'steps': [list(s) for s in seq], 'opts': default_opts(), 'enum': True})
+    for steps, over in FIXED:
+        o = default_opts()
+        o.update(over)
+        cases.append({'steps': steps, 'opts': o})
     # dialogues that never reach a shell, with prompt reset disabled (deterministic minimum cases)
     for steps in ([['silence', 3.5]], [['banner', 'Cost: 5$ per hour\n'], ['silence', 3.5]], [['terminal'], ['silence', 3.5]],
                   [['password', True], ['silence', 3.5]], [['banner', '### MOTD ###\n'], ['exit', 0]]):
